@@ -15,24 +15,31 @@ var nodeIface = reflect.TypeOf((*parser.Node)(nil)).Elem()
 
 // showValue prints a syntax tree canonically: nodes as (TypeName f1 f2 ...) with the
 // exported fields in declaration order.
-func showValue(sb *strings.Builder, v reflect.Value) {
+func showValue(sb *strings.Builder, v reflect.Value) { showValueShift(sb, v, 0) }
+
+// showValueShift is showValue with every valid span moved by off.
+func showValueShift(sb *strings.Builder, v reflect.Value, off int) {
 	switch v.Kind() {
 	case reflect.Interface:
 		if v.IsNil() {
 			sb.WriteString("nil")
 			return
 		}
-		showValue(sb, v.Elem())
+		showValueShift(sb, v.Elem(), off)
 	case reflect.Ptr:
 		if v.IsNil() {
 			sb.WriteString("nil")
 			return
 		}
-		showValue(sb, v.Elem())
+		showValueShift(sb, v.Elem(), off)
 	case reflect.Struct:
 		if v.Type() == spanType {
 			sp := v.Interface().(parser.Span)
-			fmt.Fprintf(sb, "%d:%d", sp.Start, sp.End)
+			if sp.IsValid() {
+				fmt.Fprintf(sb, "%d:%d", sp.Start+off, sp.End+off)
+			} else {
+				fmt.Fprintf(sb, "%d:%d", sp.Start, sp.End)
+			}
 			return
 		}
 		sb.WriteString("(" + v.Type().Name())
@@ -41,7 +48,7 @@ func showValue(sb *strings.Builder, v reflect.Value) {
 				continue
 			}
 			sb.WriteByte(' ')
-			showValue(sb, v.Field(i))
+			showValueShift(sb, v.Field(i), off)
 		}
 		sb.WriteByte(')')
 	case reflect.Slice:
@@ -50,7 +57,7 @@ func showValue(sb *strings.Builder, v reflect.Value) {
 			if i > 0 {
 				sb.WriteByte(' ')
 			}
-			showValue(sb, v.Index(i))
+			showValueShift(sb, v.Index(i), off)
 		}
 		sb.WriteByte(']')
 	case reflect.String:
